@@ -6,8 +6,7 @@
   in keys; absent pair = 0 : 0; `IsCW v w` = `w` is a candidate and `d w o > d o w` for every other
   candidate `o`.
 -/
-import VotelibProofs.Lemmas.Schulze
-import VotelibProofs.Lemmas.SmithModel
+import VotelibProofs.Lemmas.Ranked
 import VotelibModel.CondorcetRanked
 namespace VL.C05
 open VL VL.Condorcet
@@ -72,6 +71,68 @@ theorem cw_minimax_margins {v : Pairwise} (hwf : WF v) {w : Cand} (hw : IsCW v w
     refine ⟨pget v (w, o) - pget v (o, w), ?_, by unfold Beats at hb; linarith⟩
     exact List.mem_map.2 ⟨((w, o), pget v (w, o)), List.mem_filter.2 ⟨pget_pos_mem hpos, by simp⟩, rfl⟩
 
+/-- **Schulze** elects exactly the Condorcet winner: every direct win of `w` keeps a positive path
+    strength, no path into `w` ever gets one, so `w` wins every path comparison and everybody else loses
+    at least the one against `w`. -/
+theorem cw_schulze {v : Pairwise} (hwf : WF v) {w : Cand} (hw : IsCW v w) : schulze v 1 = [Slot.cand w] :=
+  schulze_cw hwf hw
+
+/-- **Benham** elects exactly the Condorcet winner of the pairwise counts of the profile (the loop exits
+    at its first test). -/
+theorem cw_benham {p : Profile} (hwf : WF (rankedToCondorcet p)) {w : Cand} (hw : IsCW (rankedToCondorcet p) w) :
+    benham p = .ok [Slot.cand w] := by
+  unfold benham
+  rw [show (allRankedCandidates p).length + 3 = ((allRankedCandidates p).length + 2) + 1 from rfl]
+  unfold benhamLoop
+  have : benhamCW p = some w := by
+    unfold benhamCW
+    rw [cw_complete hwf hw]
+    rfl
+  rw [this]
+
+/-- **Tideman alternative** (Smith set selector) elects exactly the Condorcet winner of the pairwise counts
+    of the profile: the Smith set is `[w]` and the first tier returns at its first test. -/
+theorem cw_tideman {p : Profile} (hwf : WF (rankedToCondorcet p)) {w : Cand} (hw : IsCW (rankedToCondorcet p) w) :
+    tideman true p = .ok [Slot.cand w] := by
+  have hne : p.isEmpty = false := by
+    cases p with
+    | nil => exact absurd hw.1 (by simp [rankedToCondorcet, candidates, flatCands, uniq])
+    | cons _ _ => rfl
+  have htier : tidemanTier true ((allRankedCandidates p).length + 3) p = .ok (Slot.cand w) := by
+    rw [show (allRankedCandidates p).length + 3 = ((allRankedCandidates p).length + 2) + 1 from rfl]
+    unfold tidemanTier
+    rw [hne]
+    have hs : smithSchwartz (rankedToCondorcet p) true = [w] := smithSet_of_cw hwf hw
+    simp only [Bool.false_eq_true, if_false, hs]
+  unfold tideman
+  rw [htier]
+  simp only
+  rw [if_pos (List.contains_iff_mem.2 (candidates_rankedToCondorcet_sub p hw.1))]
+
+/-! ### Smith efficiency -/
+
+/-- **Copeland's first place lies in the Smith set**: every candidate named for a single seat — alone or
+    in a reported tie, with or without second-order tie-breaking — is a member of the Smith set. -/
+theorem copeland_in_smith {v : Pairwise} (hwf : WF v) (secondOrder : Bool) :
+    ∀ s ∈ copeland secondOrder v 1, ∀ c ∈ slotMembers s, c ∈ smithSet v := by
+  have hbest : ∀ s ∈ getNBest (seededScores v (copelandScoresRaw (pairwiseWins v false))) 1,
+      ∀ c ∈ slotMembers s, c ∈ smithSet v := by
+    intro s hs c hc
+    obtain ⟨x, hcx, hmax⟩ := getNBest_one_max _ s hs c hc
+    obtain ⟨c', hc', heq⟩ := List.mem_map.1 hcx
+    simp only [Prod.mk.injEq] at heq
+    obtain ⟨rfl, rfl⟩ := heq
+    apply copeland_max_in_smith hwf hc'
+    intro o ho
+    exact hmax _ (mem_seededScores ho)
+  intro s hs c hc
+  unfold copeland at hs
+  simp only at hs
+  split at hs
+  · obtain ⟨s', hs', hc'⟩ := breakSecondOrder_members _ _ _ s hs c hc
+    exact hbest s' hs' c hc'
+  · exact hbest s hs c hc
+
 /-! ### nobody who took part in a pairwise contest is dropped -/
 
 /-- **Copeland**: with at least as many seats as candidates every candidate is listed. -/
@@ -117,7 +178,53 @@ theorem no_candidate_dropped_schulze (v : Pairwise) (n : Nat)
     rw [this, hk]; exact hn
   · rw [hk]; exact hc
 
+/-! ### where the current code does NOT meet the property (concrete witnesses, open findings) -/
+
+/-- `w = 0` beats `1,2,3,4`; `1` beats `2`; `3` beats `4` -/
+def exTwoChains : Pairwise := [((0, 1), 3), ((0, 2), 3), ((0, 3), 3), ((0, 4), 3), ((1, 2), 2), ((3, 4), 2)]
+/-- `0` beats `1` and `2` 3:1, `1 ~ 2` 2:2 -/
+def exLowerTie : Pairwise := [((0, 1), 3), ((1, 0), 1), ((0, 2), 3), ((2, 0), 1), ((1, 2), 2), ((2, 1), 2)]
+/-- `abc:2, bca:2, cab:2` -/
+def exCycleProfile : Profile :=
+  [([.one 0, .one 1, .one 2], 2), ([.one 1, .one 2, .one 0], 2), ([.one 2, .one 0, .one 1], 2)]
+
+/-- full statement `cw_rankedpairs : WF v → IsCW v w → rankedPairs sc v 1 = .ok [Slot.cand w]` is FALSE of
+    the current code: `_build_ranking` refuses (bare VotingSystemError) when two lower candidates are not
+    ordered by the locked pairs, although the Condorcet winner is the unique first source. -/
+theorem cw_rankedpairs_witness :
+    WF exTwoChains ∧ IsCW exTwoChains 0 ∧
+      rankedPairs .winningVotes exTwoChains 1 = .error .votingSystemError ∧
+      rankedPairs .margins exTwoChains 1 = .error .votingSystemError ∧
+      rankedPairs .pairwiseOpposition exTwoChains 1 = .error .votingSystemError := by decide +kernel
+
+/-- full statement `cw_kemeny : WF v → IsCW v w → kemenyYoung v 1 = .ok [Slot.cand w]` is FALSE of the
+    current code: with a tie further down (`1 ~ 2`) the best order is not unique and the evaluator raises
+    NotImplementedError, although both best orders start with the Condorcet winner. -/
+theorem cw_kemeny_witness :
+    WF exLowerTie ∧ IsCW exLowerTie 0 ∧ kemenyYoung exLowerTie 1 = .error .notImplemented := by decide +kernel
+
+/-- ranked pairs drops a candidate and orders incomparable candidates silently: `0` beats `1` (3) and
+    `2` (2), nothing orders `1` and `2`; three seats give `[0, 1]`. -/
+theorem rankedpairs_dropped_witness :
+    rankedPairs .winningVotes [((0, 1), 3), ((0, 2), 2)] 3 = .ok [Slot.cand 0, Slot.cand 1] := by decide +kernel
+
+/-- minimax prefers a candidate who never appears as the lower candidate of a pair over another
+    undefeated candidate: nobody beats `0` or `1`, yet `0` alone is elected. -/
+theorem minimax_never_loser_witness :
+    minimax .winningVotes [((0, 2), 3), ((1, 2), 3), ((2, 1), 1)] 1 = [Slot.cand 0] ∧
+    (∀ o ∈ [0, 1, 2], ¬ Beats [((0, 2), 3), ((1, 2), 3), ((2, 1), 1)] o 0) ∧
+    (∀ o ∈ [0, 1, 2], ¬ Beats [((0, 2), 3), ((1, 2), 3), ((2, 1), 1)] o 1) := by decide +kernel
+
+/-- the hybrids crash on a first-preference elimination tie instead of reporting it or refusing -/
+theorem benham_elimination_tie_witness : benham exCycleProfile = .error (.other "IndexError") := by decide +kernel
+theorem tideman_elimination_tie_witness :
+    tideman true exCycleProfile = .error (.other "IndexError") := by decide +kernel
+theorem tideman_last_tie_witness :
+    tideman true [([.one 0, .one 1], 1), ([.one 1, .one 0], 1)] = .error (.other "KeyError") ∧
+    benham [([.one 0, .one 1], 1), ([.one 1, .one 0], 1)] = .ok [Slot.tie [0, 1]] := by decide +kernel
+
 /-! ### non-vacuity -/
+
 
 /-- a Condorcet winner who never appears as a loser (the sparse shape of the property text) -/
 def exCW : Pairwise := [((0, 1), 3), ((0, 2), 3), ((1, 2), 2), ((2, 1), 1)]
@@ -127,5 +234,13 @@ example : IsCW exCW 0 := by decide +kernel
 example : copeland true exCW 1 = [Slot.cand 0] := by decide +kernel
 example : minimax .winningVotes exCW 3 = [Slot.cand 0, Slot.cand 1, Slot.cand 2] := by decide +kernel
 example : schulze exCW 3 = [Slot.cand 0, Slot.cand 1, Slot.cand 2] := by decide +kernel
+example : schulze exCW 1 = [Slot.cand 0] := by decide +kernel
+
+/-- `abc:4, bac:3, cba:2`: the Condorcet winner `1` is not the plurality winner -/
+def exProfile : Profile := [([.one 0, .one 1, .one 2], 4), ([.one 1, .one 0, .one 2], 3), ([.one 2, .one 1, .one 0], 2)]
+example : WF (rankedToCondorcet exProfile) := by decide +kernel
+example : IsCW (rankedToCondorcet exProfile) 1 := by decide +kernel
+example : benham exProfile = .ok [Slot.cand 1] := by decide +kernel
+example : tideman true exProfile = .ok [Slot.cand 1] := by decide +kernel
 
 end VL.C05
